@@ -51,6 +51,14 @@ def gen_stall(rng, info, roles=None):
     # a quarter of the stalls freeze the thread in the middle of a stretch of code that contains
     # no synchronisation operation at all (k source lines past one), not on the operation itself
     lines = rng.randint(1, 12) if rng.random() < 0.25 else None
+    tm = [r for r in roles if r == 'server' or r.startswith('pt:')]
+    if tm and rng.random() < 0.12:
+        # frozen at the m-th line of server.py that a thread of the table manager executes,
+        # counted from its start: for a connection thread that is its admission code
+        return {'role': rng.choice(tm), 'index': None,
+                'duration': None if rng.random() < 0.6 else dur, 'after_kind': None,
+                'after_n': None, 'after_obj': None, 'lines': rng.randint(1, 45),
+                'origin': 'start:network_bridge/server.py'}
     if kinds and rng.random() < 0.5:
         k = rng.choice(kinds)
         n = rng.randint(1, info['kinds'][role][k])
